@@ -1,0 +1,30 @@
+//go:build verif
+
+package linereader
+
+import (
+	"bufio"
+	"io"
+)
+
+// VerifSuidSetInput replaces the reader all console input is read from like
+// VerifSetInput does and lets the verification harness watch the line reader:
+// onLine is called for every line handed to the caller of ReadLine, onEOF for
+// every call of ReadLine after the input has been exhausted. The scanner still
+// splits its input with bufio.ScanLines, the split function of a new
+// bufio.Scanner; the wrapper only counts. A callback may panic to abandon a
+// loop that keeps reading at the end of the input (build tag verif).
+func VerifSuidSetInput(rd io.Reader, onLine func(), onEOF func()) {
+	lr := newLineReader(rd)
+	lr.s.Split(func(data []byte, atEOF bool) (int, []byte, error) {
+		advance, token, err := bufio.ScanLines(data, atEOF)
+		switch {
+		case token != nil:
+			onLine()
+		case atEOF && len(data) == 0:
+			onEOF()
+		}
+		return advance, token, err
+	})
+	r = lr
+}
